@@ -5,8 +5,12 @@
 
    Corresponds to the code WITH fixes/C14-mdm-bounds.patch applied (overflow-safe accessor
    bounds, UnlockKey length >= 16, ReadOffset/ReadSector/DropSectors validation before
-   slicing / proof construction).  The unpatched functions are kept in Legacy.v, where
+   slicing / proof construction).  The unpatched checks are kept in Legacy.v, where
    their panics are exhibited.  No proofs here.
+
+   Two entry points are replayed against the implementation: [cstep] (one programExecutor
+   driven instruction by instruction, then rollback/commit) and [run_program] (a whole
+   RPCExecuteProgram through the handler, op [OpProgram]); [run_acc] for the accessors.
 
    Go -> model:
    * programData ([]byte with len = cap, it is allocated by the decoder with make) -> [pdata]
@@ -523,6 +527,8 @@ Record hstate := {
 Record request := {
   qamount   : N;            (* payment: the budget *)
   qcontract : bool;         (* a lockable contract id was supplied *)
+  qdeclared : N;            (* the instruction count field of the encoded request (= length of
+                               the program in a well-formed request; any uint64 in a raw one) *)
   qprog     : list (instr * env);
   qdata     : pdata;
   qpt       : ptable;
@@ -556,10 +562,16 @@ Definition start_of (h : hstate) (q : request) (b1 : budget) : estate :=
 Definition storage_only (u : usage) : usage :=
   {| uRpc := 0; uStorage := uStorage u; uEgress := 0; uIngress := 0; uRegR := 0; uRegW := 0 |}.
 
+(* maxProgramRequestSize / 24: what a 20 MiB request can hold (fixes/C14-rhp3-program-count-oom) *)
+Definition max_instructions : N := 873813.
+
 Definition run_program (h : hstate) (q : request) : hstate * outcome :=
   (* processAccountPayment / AccountManager.Budget *)
   if qamount q =? 0 then (h, Rejected EInvalid) else
   if hbal h <? qamount q then (h, Rejected EInsufficient) else
+  (* reading the request: the instruction count is checked before the program is allocated;
+     the deferred budget.Rollback gives everything back *)
+  if max_instructions <? qdeclared q then (h, Rejected EInvalid) else
   (* pay for the execution: budget.Spend(RPCRevenue: InitBaseCost) *)
   match spend {| bmax := qamount q; buse := usage0 |} (init_usage q) with
   | Panic => (h, Crashed)
